@@ -21,16 +21,23 @@ for the individual steps it means: no completed `del` / `TriggerNoCache` on the 
 all-caps name of a depth-0 frame (`C04.quiet_makeRef`), every nested call was a hit, failed to bind
 its arguments, or was itself miss-free on its own frame (`C04.purity_footprint`).
 
+every `Get` returned nothing, the frame's own function, a value of the frame's own store or a
+reference to a trusted binding (`C04.quiet_get`); no function-valued binding was overwritten or
+deleted (`C04.no_function_write_in_quiet_call`).
+
+The last clause is the repair of a defect the proof of (A) exposed: a miss-free `makeRef` hands out a
+reference to any function-valued outer binding, and `setNoChecks`/`update` used to write through it
+without a miss, so `g=func(){1}; f=func(x){g=func(){2}; x}; f(1); g=func(){3}; f(1); g()` gave 3
+with the cache and 2 without (known_findings.json, class
+`cached-call-skips-write-to-function-valued-outer-binding`, fixed by grol 0f2eeb4: `functionChanged`
+counts a miss on the writing environment and empties the cache).
+
 NOT proved: (B) determinism of miss-free calls and (C) the session-level equivalence.  Both are
 relational statements about two runs whose heaps of frames differ (a hit allocates no frame, so
 frame indices in closures and references diverge): they need a simulation relation up to a
-renaming of frame indices through all 19 mutually recursive functions.  What (A) already shows is
-that the store condition does NOT imply "no outer write": a miss-free `makeRef` hands out a
-reference to any function-valued outer binding and `setNoChecks` writes through it — the real
-interpreter confirms it (known_findings.json, class
-`cached-call-skips-write-to-function-valued-outer-binding`), so a `Safe` fragment for (C) has to
-exclude assignments to names bound to functions in an enclosing scope, in addition to the
-recorded classes (closure results, redefined callees, float keys).
+renaming of frame indices through all 19 mutually recursive functions.  A `Safe` fragment for (C)
+has to exclude the recorded classes (closure results, float keys), `deadlineAfter`, and runs that
+stop on fuel or the depth guard (a hit shortens the recursion).
 -/
 namespace Grol.E
 
@@ -216,6 +223,26 @@ theorem C04.quiet_makeRef (orig : Nat) (name : String) (st : St) (r : Option Obj
     (hok : outcome (makeRef orig name) st = .ok r) (hq : Quiet orig (makeRef orig name) st) :
     r = none ∨ ∃ re rn, r = some (.ref re rn) ∧ Trusted st name re rn :=
   makeRef_go_quiet orig name st.frames.size orig st r hok hq
+
+/-- a miss-free `Get` returned nothing, the frame's own function, a value bound in the frame's own
+store, or a reference to a trusted binding -/
+theorem C04.quiet_get (e : Nat) (name : String) (st : St) (r : Option Obj)
+    (hok : outcome (envGet e name) st = .ok r) (hq : Quiet e (envGet e name) st) : PureRead st e name r :=
+  envGet_quiet e name st r hok hq
+
+/-- no step of a computation that is miss-free on frame `w` overwrites or deletes a binding holding a
+function on behalf of `w`: every overwrite/deletion of an existing binding (`update`, the reference
+path of `SetNoChecks`, `Delete`) reports the old value to `functionChanged w`, and a completed
+`functionChanged w (some f)` with `f` a function raises `w`'s counter -/
+theorem C04.no_function_write_in_quiet_call {α : Type} {x : M α} {st s : St} {w : Nat} {o : Obj}
+    (hd : During x st (functionChanged w (some o)) s) (hq : Quiet w x st) (ho : isFuncObj o = true) :
+    outcome (functionChanged w (some o)) s ≠ .ok () := no_function_change_during hd hq ho
+
+/-- the same, for the store step of an assignment whose target binding holds a function -/
+theorem C04.no_function_assignment_in_quiet_call {α : Type} {x : M α} {st s : St} {w e : Nat} {name : String}
+    {val : Obj} {fr : Frame} {o : Obj} (hd : During x st (envStoreAt w e name val) s) (hq : Quiet w x st)
+    (hfr : s.frames[e]? = some fr) (hl : lookupStore fr.store name = some o) (ho : isFuncObj o = true) (r : Obj) :
+    outcome (envStoreAt w e name val) s ≠ .ok r := no_function_write_during hd hq hfr hl ho r
 
 /-- the footprint lemma for calls: a call that completes without moving its caller's miss counter
 (in particular every nested call of a call that is stored) was a cache hit, failed while binding its
